@@ -213,6 +213,16 @@ def jitter(tier="quick"):
             return res.out("violated", rep, {"replay": {"kind": "kn", "func": "vf.kernels.c20:replay_jitter", "args": dict(delta=0.25, seed=11)}})
         return res.out("discharged", "jittered in [a, a+delta] up to one rounding for every draw in [0, delta]: RLX unsat; draw is rng.uniform(0, delta)")
     if r == "sat":
+        # the model's own point: that arrival, that delta, and the draw the model chose (the generator is replaced by a
+        # stub whose uniform(lo, hi) returns it - any value in [lo, hi] is within numpy's contract)
+        av = float(A.real_to_fraction(m, a.t))
+        dv = float(A.real_to_fraction(m, delta.t))
+        jvv = float(A.real_to_fraction(m, jv.t))
+        for (aa, dd, jj) in ((av, dv, jvv), (av, 0.0, 0.0), (av, dv, 0.0), (av, dv, dv)):
+            rep = replay_jitter(dd, 7, arrival=aa, draw=jj)
+            if rep:
+                return res.out("violated", rep, {"replay": {"kind": "kn", "func": "vf.kernels.c20:replay_jitter",
+                                                            "args": dict(delta=dd, seed=7, arrival=aa, draw=jj)}})
         for (dl, sd) in ((0.5, 7), (0.001, 3), (10.0, 42)):
             rep = replay_jitter(dl, sd)
             if rep:
@@ -231,21 +241,42 @@ p4,1.5,BATCH_PIPELINE,op1,,1.0,const,,1.0
 """
 
 
-def replay_jitter(delta, seed):
+class _FixedDraw:
+    def __init__(self, v):
+        self.v = v
+
+    def uniform(self, lo=0.0, hi=1.0, size=None):
+        return min(max(self.v, lo), hi)
+
+
+def replay_jitter(delta, seed, arrival=None, draw=None):
     """Real jitter_command on a small trace: every arrival moves by an amount in [0, delta], output sorted
-    (stable), all other cells untouched, same seed => same output."""
+    (stable), all other cells untouched, same seed => same output.  With `arrival`, the trace's arrivals are
+    arrival, arrival, arrival, arrival+1.25 (a solver-chosen, possibly off-grid instant); with `draw`, the random
+    generator is a stub whose uniform(lo, hi) returns that value clipped to [lo, hi]."""
     import_repo()
     import tempfile, os, io, contextlib, csv, shutil
+    import eudoxia.tools as T
     from eudoxia.tools import jitter_command
+    TRACE = globals()["TRACE"]
+    if arrival is not None:
+        TRACE = (TRACE.replace("p1,0.0,", f"p1,{arrival!r},").replace("p2,0.25,", f"p2,{arrival!r},")
+                 .replace("p3,0.25,", f"p3,{arrival!r},").replace("p4,1.5,", f"p4,{arrival + 1.25!r},"))
     d = tempfile.mkdtemp(prefix="vjit_")
+    real_rng = T.np.random.default_rng
     try:
         src = os.path.join(d, "in.csv")
         open(src, "w").write(TRACE)
         outs = []
         for k in range(2):
             dst = os.path.join(d, f"out{k}.csv")
-            with contextlib.redirect_stdout(io.StringIO()):
-                jitter_command(src, dst, delta, seed=seed, force=True)
+            if draw is not None:
+                T.np.random.default_rng = lambda *a_, **k_: _FixedDraw(draw)
+            try:
+                with contextlib.redirect_stdout(io.StringIO()):
+                    jitter_command(src, dst, delta, seed=seed, force=True)
+            finally:
+                T.np.random.default_rng = real_rng
             outs.append(open(dst).read())
         if outs[0] != outs[1]:
             return "C20:jitter_not_reproducible_for_a_seed"
